@@ -213,6 +213,27 @@ def checkC06Single (c : HCase) : Verdict :=
       match a.implTree, b.implTree with
       | some x, some y => if monotone x.abs y.abs then .ok else .prop s!"an extension lost information: {showSchema x.abs} -> {showSchema y.abs}"
       | _, _ => .ok),
+    -- single steps from the implementation's own tree, whatever it is (a root marked as repeated, a root
+    -- without a position, ...): an element-less input is accepted and changes nothing (`C06_empty`), and
+    -- a well-formed document with the tree's root name is accepted
+    fun _ => firstBad (((obs.zip ((c.docs.drop 1).zip (obs.drop 1))).zipIdx).map fun ((prev, d, cur), i) => fun _ =>
+      match prev.implTree with
+      | none => .ok
+      | some p =>
+        if firstFault 0 d.evs == none && !hasElement 0 d.evs then
+          match cur.implRes with
+          | .ok t =>
+            if t.beq (if p.position.isNone then p.setPosition (some 0) else p) then .ok
+            else .prop s!"step={i+1} an element-less input changed the tree: {showElem p} -> {showElem t}"
+          | .error m => .prop s!"step={i+1} an element-less input is rejected: {showName m}"
+        else match d.dom with
+          | some n =>
+            if n.wellFormed && n.attrsDistinct && n.name == p.name then
+              match cur.implRes with
+              | .ok _ => .ok
+              | .error m => .prop s!"step={i+1} a well-formed document with the root name of the structure is rejected: {showName m}"
+            else .ok
+          | none => .ok),
     fun _ => historyCorr 1 obs ]
 
 def checkPair (prop rel : String) (a b : HCase) : Verdict :=
